@@ -50,7 +50,7 @@ CHECKS = {
             "Voronoi::from(&integrator) bitwise equals the direct build (all public accessors), cell integrals = stored values in index order, symmetric face integrals = face list in order, sym = non-sym minus faces of constructed lower-index unshifted neighbours (as sequences), with-faces vs without-faces to tolerance.", "R9 excused in the with/without-faces comparison only.", "3/C13"),
     "C14": ("E1 tess", "explicit-state enumeration of (state, mask, with/without faces); recording integrals implemented in this downstream crate; moment oracle",
             "The harness is a downstream crate implementing CellIntegral/FaceIntegral (compile-time witness of the first clause). For every constructed cell: apex = generator (bitwise), signed monomial sums (degree <= 2) = moments of the O-cell, results in index order under every mask; every base triangle lies in its face plane and signed areas sum to the face area; with/without faces agree.",
-            "Per-cell data: the blanket impl fixes Data = () for every downstream integral, so data alignment is unobservable; the *_with_data entry points are checked to return the same sequences. Any downstream integral is a fold over the recorded sequence.", "3/C14"),
+            "Compile-time facet: /verif/probe_c14 (public API only, plain and data-carrying integrals) is built and run first by ./check C14; a compile error located in the probe is reported as a violation. Per-cell data (datum = function of the generator index, Data = u64, only expressible since fix 307247f) must reach exactly the integrals of that cell under every mask through the three *_with_data entry points and the single-cell entry points, and the results must be bitwise those of the data-free entry points. Any downstream integral is a fold over the recorded sequence.", "3/C14"),
     "C15": ("E1 tess", "explicit-state enumeration of 3D (state, mask) pairs; polytope axioms on every cell; all type-state operation sequences up to depth 4",
             "Vertices on their three planes and inside all half-spaces, each in exactly three faces; faces planar, simple, convex, counter-clockwise about the inward normal, area = area integral = oracle; Euler; accessors agree with face integrals; discard_faces after with_faces is the identity; every sequence of {with_faces, discard_faces, clone, integrals} of length <= 4 leaves the observations of its type-state unchanged; with_faces on 1D/2D is rejected with the documented message.", "R9 excused for the area integral of wall faces through the generator.", "3/C15"),
     "C16": ("E1 tess", "explicit-state search over the add-a-generator graph: nodes = generator sets, edges = S -> S + p (alphabet points and ring points around every safety ball)",
@@ -114,7 +114,7 @@ def main():
         "engines": ENGINES,
         "checks": checks,
         "not_applicable": na,
-        "notes": "Fix commits in /repo (see known_findings.txt 'fixed:' lines): d8c26fa (C04 normal sign), d5646cf (C05/C10 integer grid), 682e940 (C12 inactive cell index), 0e935df (C14 marker trait export), aa2da1c (C20 Space cell positions), 5778456 (C20 Epos6 extremal points). Known findings: known_findings.txt + known_findings/.",
+        "notes": "Fix commits in /repo (see known_findings.txt 'fixed:' lines): d8c26fa (C04 normal sign), d5646cf (C05/C10 integer grid), 682e940 (C12 inactive cell index), 0e935df (C14 marker trait export), aa2da1c (C20 Space cell positions), 5778456 (C20 Epos6 extremal points), 307247f (C14 data-carrying integrals implementable downstream). Known findings: known_findings.txt + known_findings/.",
     }
     json.dump(m, open('/verif/MANIFEST.json', 'w'), indent=1)
     print("checks:", len(checks), "not_applicable:", len(na))
